@@ -315,7 +315,21 @@ def main():
                         yield i
                     except BaseException:  # noqa - a bare except around the yield: GeneratorExit is swallowed, the generator goes on
                         pass
-        eq = Equalizer(listing(), player, result_extractor, comparator, compare_execution_config=cfg)
+        class PagedListing(object):
+            """An iterator OBJECT (not a generator): once its store is gone every further next() fails again."""
+            def __init__(self, upto):
+                self._it = iter(list(ids)[:upto])
+
+            def __iter__(self):
+                return self
+
+            def __next__(self):
+                for i in self._it:
+                    return i
+                raise RuntimeError('listing failed: the store of the caller\'s lookup is gone')
+            next = __next__
+        source = PagedListing(case['listing_fails_after']) if case['ids_iterator'] == 'next_keeps_raising' else listing()
+        eq = Equalizer(source, player, result_extractor, comparator, compare_execution_config=cfg)
         run_comparison = eq.run_comparison
     elif case.get('default_config'):
         # the judged equalizer is built WITHOUT a configuration (documented default: in this process, results not kept); another
@@ -392,6 +406,8 @@ def main():
     try:
         k = 0
         for comp in gen:
+            if k >= len(case['behaviours']):
+                raise RuntimeError('more comparisons than recording ids were delivered (%d so far)' % (k + 1))
             stamps.append(time.monotonic() - t_start)
             pb = comp.playback
             results.append({
